@@ -1557,7 +1557,66 @@ class C11(Prop):
                     res.oracle_failures.append(dict(key=f"C11|{fld}|slot-empty-although-path-resolves", case=case, detail=f"impl {got[:300]}"))
 
 
-REGISTRY = {"C11": C11(), "C13": C13(), "C06": C06(), "C15": C15(), "C16": C16(), "C05": C05(), "C18": C18(), "C08": C08(), "C07": C07(), "C03": C03(), "C02": C02(), "C20": C20(), "C09": C09(), "C10": C10(), "C14": C14(), "C12": C12()}
+# ------------------------------------------------------------------------------------------
+# C04
+
+class C04(Prop):
+    rule = ("42 target types (bool; every integer width incl. 128-bit; f64, f32, Vec<f64>; char; String, &str, Cow<str>; (); Option; tuples, tuple/newtype/unit "
+            "structs, fixed arrays; Vec; BTreeMap with String, i32, u64, i8, bool and unit-enum keys; structs with Option / #[serde(default)] / unknown / "
+            "borrowed fields and deny_unknown_fields; an enum with all four variant shapes; serde_bytes::ByteBuf; nested combinations; untagged enum; "
+            "flattened map) x a type-directed generator (matching texts, boundary integers, near-matching shapes: wrong length, missing / repeated / "
+            "unknown fields, sequence form of structs, every enum framing, wrong key spellings, other shapes, trailing bytes) plus a fixed list of 50 "
+            "texts of every shape against every type, through from_str and from_slice; results are compared as the serde_json text of the decoded "
+            "Rust value (floats by their bits); non-trivial = at least one side accepts")
+    trusted = ["35 of the types are modelled in Lean (Spec.decode); f32, &str, Cow<str>, the struct with borrowed fields, the untagged enum, the flattened "
+               "struct and Vec<f64> are compared with serde_json only (differential)",
+               "documented differences: f32 is compared with serde_json's f64 narrowed to f32; nesting limits and error wording are not compared"]
+    assumptions = ["numeric and bool map keys are written without escapes (both libraries read them from the raw key text)"]
+
+    def explore(self, ctx, res):
+        name = "c04"
+        cases_path = generate(ctx, name)
+        impl, model, crashed, err = run_stream(ctx, name, cases_path)
+        with open(cases_path) as f:
+            cases = f.read().splitlines()
+        if crashed or len(impl) != len(cases):
+            idx = min(len(impl), len(cases) - 1)
+            res.oracle_failures.append(dict(key="c04:process-abort", case=cases[idx], detail=f"harness exited abnormally after {len(impl)} of {len(cases)} cases: {err[-300:]}"))
+        n = min(len(impl), len(cases))
+        for i in range(n):
+            case = cases[i]
+            res.evaluations += 1
+            tid = case.split(" ")[1]
+            I = ctx["parse_fields"](impl[i])
+            M = ctx["parse_fields"](model[i]) if model and i < len(model) else {}
+            if model is not None and "spec" not in M:
+                res.model_disagreements.append(dict(key="c04:model-output-missing", case=case, detail=""))
+                continue
+            spec = M.get("spec")
+            serde = I.get("serde")
+            if len(res.samples) < 6 and i % max(1, n // 6) == 0:
+                res.samples.append({"case": case[:200], "impl": impl[i][:200], "model": (model[i][:200] if model and i < len(model) else None)})
+            res.distribution[f"type:{tid}:" + ("accept" if serde != "R" else "reject")] += 1
+            if serde != "R" or I.get("sonic_slice") != "R":
+                res.nontrivial(case)
+            ref = serde
+            if spec is not None and spec != "NOTMODELLED":
+                # adequacy of the reference semantics: it must be serde_json's
+                if spec != serde and serde != "PANIC":
+                    res.model_disagreements.append(dict(key=f"c04:reference-semantics-is-not-serde_json:type-{tid}", case=case, detail=f"Lean {spec[:120]} serde_json {serde[:120] if serde else None}"))
+                ref = spec
+            for fld in ("sonic", "sonic_slice"):
+                got = I.get(fld)
+                if got in (None, "NA"):
+                    continue
+                if got == "PANIC":
+                    res.oracle_failures.append(dict(key=f"C04|type-{tid}|panic", case=case, detail="the library panicked"))
+                elif got != ref:
+                    kind = "accepts-what-reference-rejects" if ref == "R" else ("rejects-what-reference-accepts" if got == "R" else "value-differs")
+                    res.oracle_failures.append(dict(key=f"C04|type-{tid}|{kind}", case=case, detail=f"{fld} {got[:120]} reference {ref[:120] if ref else None}"))
+
+
+REGISTRY = {"C04": C04(), "C11": C11(), "C13": C13(), "C06": C06(), "C15": C15(), "C16": C16(), "C05": C05(), "C18": C18(), "C08": C08(), "C07": C07(), "C03": C03(), "C02": C02(), "C20": C20(), "C09": C09(), "C10": C10(), "C14": C14(), "C12": C12()}
 for _k, _v in REGISTRY.items():
     _v.pid = _k
 
